@@ -11,6 +11,9 @@ CLAIMS = {
  "C03": ("must-pass-through over the SSA CFG of the VALUES loop (R-path) + dominance of rejection calls",
          "Structural necessary condition only: no row of an INSERT ... VALUES list can take a path through the routing loop that neither places the row in a rewritten statement nor fails the statement; the shard-column rejections dominate SQL generation. Not a proof that the routed index equals the lookup index.",
          "SSA/CFG of proxy/plan is a faithful model of control flow; runtime panics are not modelled as exits.", "§4 C03"),
+ "C04": ("def-use of the routed index list (all copies = unmodified Rule.GetSubTableIndexes(), one copy = one-element slice) + edge dominance / who-may-call per statement type at every generateShardingSQLs call site + error-edge must-pass in HandleInsertStmt + loop must-pass (every taken index files a statement) + cursor shape (HasNext/Next/GetCurrentTableIndex) + dominance of the schema rewrite by GetType()==\"global\" over SSA",
+         "Decides the route structure only: which handler (all copies / one copy) each statement type goes through, that the all-copies route is the rule's full index list, that generateShardingSQLs emits one statement per routed index filed under that index's slice and database with the text restored before the cursor advances, and that the decorators write GetDatabaseNameByTableIndex(current index) for global rules. Not decided: which physical databases a layout configures, statements mixing global and sharded tables, aliases, the rewritten text.",
+         "", "§9 C04"),
  "C05": ("edge dominance + error-edge must-pass in the two shard-column rejection functions",
          "Decides only the rejection gate of the property's second sentence: an assignment whose column is the rule's sharding column reaches only error returns, inside the loop over all assignments, and these checks dominate SQL generation. That exactly the matching rows change and the affected-row count are row-level equivalence and are not decided.",
          "", "§9 C05"),
@@ -92,7 +95,6 @@ CLAIMS = {
 NA = {
  "C01": "Pruned index sets versus placement of every key relative to range/calendar boundaries is arithmetic over values; no structural clause that is both necessary and not a frozen fragment.",
  "C02": "Result-multiset equivalence over data and queries; no structural necessary condition beyond what the type system enforces.",
- "C04": "Depends on configured layouts and rewritten database names (values); the only structure is a frozen fragment.",
  "C08": "Numerical equality with a Java reference implementation (UTF-16 code units, 32-bit wraparound).",
  "C13": "Value equality per column type between text and binary protocol rows.",
  "C14": "Agreement of the hand-written placeholder scanner with the SQL lexer over all texts (language equivalence over inputs).",
